@@ -560,7 +560,7 @@ func TestC25Regressions(t *testing.T) {
 	}{
 		{1, 4, 1}, {1, 4, 3}, {1, 4, 1000}, {1, 2, 2}, {3, 4, 2}, {1, 1, 1}, {1, 1, 1000},
 		{1, ^uint64(0), 1}, {1, ^uint64(0), 7}, // 1-c rounds to 1 in f64: threshold 0, exact ~2^64/n
-		{^uint64(0) - 1, ^uint64(0), 2},         // c rounds to 1 in f64: saturates, exact 2^128(1-2^-32)
+		{^uint64(0) - 1, ^uint64(0), 2}, // c rounds to 1 in f64: saturates, exact 2^128(1-2^-32)
 		{1<<53 - 1, 1 << 53, 2}, {1<<53 - 1, 1 << 53, 10000},
 	} {
 		c25check(t, c.c1, c.c2, c.n)
